@@ -298,6 +298,7 @@ def parse_engine_output(res, report, prop, replay_base, accept_props=None):
     """Parse JSON lines of an engine run; feed the report.  replay_base: dict describing how to rebuild/run."""
     deaths = 0
     done = False
+    tail = san_summary(res["err"][-200000:])
     for line in res["out"].splitlines():
         line = line.strip()
         if not line.startswith("{"):
@@ -320,16 +321,18 @@ def parse_engine_output(res, report, prop, replay_base, accept_props=None):
             rb = dict(replay_base)
             rb["case"] = "%s:%s" % (replay_base.get("mode", ""), d.get("case"))
             key = "%s|%s|death.%s|%s|%s" % (replay_base.get("engine", "?"), prop, d["kind"], d.get("key", ""), replay_base.get("config_class", ""))
-            tail = san_summary(res["err"])
             report.add_violation(key, "process died (%s) during: %s [%s case %s]%s" %
                                  (d["kind"], d.get("desc", ""), replay_base.get("config", ""), d.get("case"), tail), rb)
+        elif t == "death-limit":
+            report.add_inconclusive("engine stopped after %s process deaths at case %s of %s (remaining cases not explored): %s" %
+                                    (d.get("deaths"), d.get("stopped_at"), d.get("total"), replay_base.get("config", "")))
         elif t == "done":
             done = True
     if res["timeout"]:
         report.add_inconclusive("watchdog: %s timed out after %.0fs" % (" ".join(res["cmd"][:6]), res["wall"]))
     elif res["rc"] != 0 and not deaths:
         key = "%s|%s|engine-exit|%s" % (replay_base.get("engine", "?"), prop, replay_base.get("config_class", ""))
-        report.add_violation(key, "engine exited with status %s: %s %s" % (res["rc"], " ".join(res["cmd"]), san_summary(res["err"])), dict(replay_base))
+        report.add_violation(key, "engine exited with status %s: %s %s" % (res["rc"], " ".join(res["cmd"]), tail), dict(replay_base))
     elif not done and res["rc"] == 0 and replay_base.get("expect_done", True):
         report.add_inconclusive("engine produced no completion record: %s" % " ".join(res["cmd"][:8]))
 
